@@ -5,7 +5,7 @@ cd /verif
 ./setup.sh >/dev/null 2>&1
 out=seeded/MATRIX.txt
 tmp=$(mktemp -d /var/tmp/verif-matrix.XXXXXX)
-ls -d seeded/C*/ seeds/own/*.diff 2>/dev/null | while read s; do
+ls -d seeded/C*/ seeds/own/*.diff seeds/neutral/*.diff 2>/dev/null | while read s; do
   case "$s" in
     *.diff) patch="$PWD/$s"; name=$(basename "$s" .diff);;
     *) patch="$PWD/${s}patch.diff"; name=$(basename "$s");;
